@@ -533,6 +533,10 @@ func (g *Gen) typeInv(term string, t types.Type, depth int) []string {
 			fmt.Sprintf("(<= 0 (len_%s %s))", s, term),
 			fmt.Sprintf("(<= (len_%s %s) (cap_%s %s))", s, term, s, term),
 		}
+		if es := elemSize(t); es > 0 {
+			// a slice that exists fits the address space (what runtime.makeslice / growslice enforce when it is allocated)
+			out = append(out, fmt.Sprintf("(<= (* %d (cap_%s %s)) %s)", es, s, term, maxAllocBytes))
+		}
 		if !g.resultMode && g.allocBound != "" {
 			// storage that existed when the value was introduced: function entry (bound 0) or the loop head
 			out = append(out, fmt.Sprintf("(<= (arr_%s %s) %s)", s, term, g.allocBound))
@@ -545,6 +549,25 @@ func (g *Gen) typeInv(term string, t types.Type, depth int) []string {
 		return []string{fmt.Sprintf("(<= %s %s)", term, g.allocBound)}
 	}
 	return nil
+}
+
+// maxAllocBytes is runtime.maxAlloc on linux/amd64 (48 address bits).
+const maxAllocBytes = "281474976710656"
+
+var gcSizes = types.SizesFor("gc", "amd64")
+
+// elemSize is the size in bytes of one element of a slice type (0 when it cannot be told).
+func elemSize(t types.Type) (n int64) {
+	defer func() {
+		if recover() != nil {
+			n = 0
+		}
+	}()
+	sl, ok := t.Underlying().(*types.Slice)
+	if !ok {
+		return 0
+	}
+	return gcSizes.Sizeof(sl.Elem())
 }
 
 // load reads the value at an address.
